@@ -55,6 +55,7 @@ fn main() {
                 kind: arg(&args, "--kind").expect("--kind"),
                 n: arg(&args, "--n").and_then(|x| x.parse().ok()).unwrap_or(1),
                 m: arg(&args, "--m").and_then(|x| x.parse().ok()).unwrap_or(1),
+                inner: arg(&args, "--inner"),
             };
             let seed: u64 = arg(&args, "--seed").and_then(|x| x.parse().ok()).unwrap_or(1);
             let events: usize = arg(&args, "--events").and_then(|x| x.parse().ok()).unwrap_or(1000);
